@@ -488,46 +488,6 @@ func c19HostIPChanged(c *Ctx) {
 // c19LoopCapture: a closure created inside a loop must not capture a variable that is declared outside the loop
 // and assigned inside it (every closure would see the last iteration's value).
 func c19LoopCapture(c *Ctx) {
-	w := c.w
-	rule := "membership-events"
-	n := 0
-	for _, fn := range w.All {
-		loops := rangeLoops(fn)
-		inAnyLoop := func(b *ssa.BasicBlock) *rangeLoop {
-			for _, rl := range loops {
-				if rl.inLoop(b) && b != rl.Header {
-					return rl
-				}
-			}
-			return nil
-		}
-		eachInstr(fn, func(in ssa.Instruction) {
-			mc, ok := in.(*ssa.MakeClosure)
-			if !ok {
-				return
-			}
-			rl := inAnyLoop(mc.Block())
-			if rl == nil {
-				return
-			}
-			n++
-			for bi, bv := range mc.Bindings {
-				al, ok := bv.(*ssa.Alloc)
-				if !ok || rl.inLoop(al.Block()) {
-					continue
-				}
-				// declared outside: assigned inside the loop?
-				for _, r := range *al.Referrers() {
-					if st, ok := r.(*ssa.Store); ok && st.Addr == ssa.Value(al) && rl.inLoop(st.Block()) && st.Block() != rl.Header {
-						name := "?"
-						if cl, ok := mc.Fn.(*ssa.Function); ok && bi < len(cl.FreeVars) {
-							name = cl.FreeVars[bi].Name()
-						}
-						c.bad(rule, fmt.Sprintf("%s/loop-capture/%s", w.fname(fn), name), w.ipos(mc), "a closure created inside a loop captures variable "+name+", which is declared outside the loop and assigned in it: every callback sees the value of the last iteration (e.g. the port of the last host name)")
-					}
-				}
-			}
-		})
-	}
-	c.ok(rule, "package/loop-closures", "-", fmt.Sprintf("%d closures created inside range loops inspected", n))
+	ruleLoopCaptureReaching(c, "membership-events", "every resolver callback sees the values of the last host name, e.g. its port",
+		"(*RoundRobinBackend).hostIPChanged", "(*RoundRobinBackend).AddBackend", "(*RoundRobinBackend).RemoveBackend")
 }
